@@ -42,17 +42,18 @@ def toy(mulgrids, which, convention=0, atmos=0):
     geo = m.mulgrid(convention=convention, atmos_type=atmos)
     which %= 3
     if which == 0:
-        # a quad, two triangles and a pentagon around a centre strip
-        pts = {'a': (0, 0), 'b': (10, 0), 'c': (20, 0), 'd': (0, 10), 'e': (10, 10),
-               'f': (20, 10), 'g': (5, 18), 'h': (15, 20), 'i': (25, 5)}
-        cols = [('a', 'b', 'e', 'd'), ('b', 'c', 'f', 'e'), ('d', 'e', 'g'),
-                ('e', 'f', 'h', 'g'), ('c', 'i', 'f')]
+        # a pentagon with one straight node (k on the edge d-e) under two small quads, and quads
+        pts = {'a': (0, 0), 'b': (10, 0), 'c': (20, 0), 'd': (0, 10), 'k': (5, 10), 'e': (10, 10),
+               'f': (20, 10), 'g': (0, 20), 'm': (5, 20), 'h': (10, 20), 'i': (20, 20)}
+        cols = [('a', 'b', 'e', 'k', 'd'), ('b', 'c', 'f', 'e'), ('d', 'k', 'm', 'g'),
+                ('k', 'e', 'h', 'm'), ('e', 'f', 'i', 'h')]
     elif which == 1:
-        # 2 x 2 quads with one diagonal split and a pentagon cap
-        pts = {'a': (0, 0), 'b': (10, 0), 'c': (20, 0), 'd': (0, 10), 'e': (10, 10),
-               'f': (20, 10), 'g': (0, 20), 'h': (10, 20), 'i': (20, 20), 'j': (10, 28)}
-        cols = [('a', 'b', 'e', 'd'), ('b', 'c', 'f', 'e'), ('d', 'e', 'h', 'g'),
-                ('e', 'f', 'i'), ('e', 'i', 'h'), ('g', 'h', 'j')]
+        # a hexagon with two opposite straight nodes between two rows of quads, plus a triangle
+        pts = {'p': (0, -10), 'q': (10, -10), 'r': (20, -10), 'a': (0, 0), 'm': (10, 0),
+               'b': (20, 0), 'd': (0, 10), 'n': (10, 10), 'e': (20, 10), 's': (0, 20),
+               't': (10, 20), 'u': (20, 20), 'v': (30, 5)}
+        cols = [('a', 'm', 'b', 'e', 'n', 'd'), ('p', 'q', 'm', 'a'), ('q', 'r', 'b', 'm'),
+                ('d', 'n', 't', 's'), ('n', 'e', 'u', 't'), ('b', 'v', 'e')]
     else:
         # strip of three triangles and a quad
         pts = {'a': (0, 0), 'b': (12, 0), 'c': (24, 0), 'd': (6, 10), 'e': (18, 10),
